@@ -80,7 +80,8 @@ func TarHdrToMetadata(hdr *tar.Header, fmeta *fs.Metadata) (skipMe error, haltMe
 
 func tarTypeToFsType(tarType byte) (_ fs.Type, skipMe error) {
 	switch tarType {
-	case tar.TypeReg, tar.TypeRegA:
+	case tar.TypeReg, tar.TypeRegA, tar.TypeGNUSparse:
+		// (an old-GNU sparse entry, 'S', is a regular file: archive/tar hands us its expanded body.)
 		return fs.Type_File, nil
 	case tar.TypeLink:
 		return fs.Type_Hardlink, nil
